@@ -1,10 +1,14 @@
-"""C02 — Find_Root (Ridder's method): root of a bracketed function to the requested accuracy."""
+"""C02 — Find_Root (Ridder's method): root of a bracketed function to the requested accuracy.
+Case grammar:  root|both  a b acc  fam np p1..pnp  <fexpr>        (both: Find_Root(a,b) and then Find_Root(b,a))
+               seq k  (a b acc fam np p1..pnp <fexpr>) x k          (k requests served one after the other by one process)
+Output per call: result, warning flag, number of evaluations, the abscissae in call order; EXIT when the process is terminated."""
 import math
 from vcheck import Case, hx, tokf
 
 PID = "C02"
 EPS = 2.0 ** -53
-RULE = ("one case = one call Find_Root(f,a,b,acc) (op both: the two orders of the bracket ends); non-trivial = at least 3 Ridder "
+RULE = ("one case = one call Find_Root(f,a,b,acc) (op both: the two orders of the bracket ends; op seq: a history of 2-5 requests served by one "
+        "process, judged by its first request); non-trivial = at least 3 Ridder "
         "iterations with at least 2 different re-bracketing cases taken (deduced from the evaluation trace: the next midpoint "
         "identifies which of the three re-bracketing branches ran); distinct by case text")
 LEVEL_TEXT = ("Theorems (Coq, over the reals, for an arbitrary objective function f unless stated): the result does not depend on the order of "
@@ -14,8 +18,8 @@ LEVEL_TEXT = ("Theorems (Coq, over the reals, for an arbitrary objective functio
               "a bracket end that is a zero is returned as is; no sign change exits; NaN at an end exits (abstract instance); linear functions "
               "are solved exactly by the first Ridder point; ACCURACY at full strength: every returned x is an exact zero of f, or an end of a "
               "bracket [u,v] with f(u)f(v)<0 and v-u < acc, or (iteration-limit return, 2200 iterations) an end of such a bracket of width <= 2^-2200 of the original; "
-              "with the IVT, a continuous f has a zero within acc (resp. 2^-2200 of the width) of x; Ridder's point lies strictly inside the bracket, so the clamp the code applies to it is the identity in exact arithmetic; the end test Sign(fl)*Sign(fr) >= 0 is fl*fr >= 0 and the scaled step (function values divided by the largest of the three magnitudes) is Ridder's step (step_eq). Not theorems: statements about IEEE rounding "
-              "(on doubles the clamp is active when rounding pushes Ridder's point past a bracket end; function values from 1e-300 to 1e300, brackets wider than the largest double and midpoints that are exact roots are generated): covered by running the extracted "
+              "with the IVT, a continuous f has a zero within acc (resp. 2^-2200 of the width) of x; Ridder's point lies strictly inside the bracket, so the clamp the code applies to it is the identity in exact arithmetic; the end test Sign(fl)*Sign(fr) >= 0 is fl*fr >= 0 and the scaled step (function values divided by the largest of the three magnitudes) is Ridder's step (step_eq); the iteration limit is reached only from a bracket at least acc*2^2200 wide, hence for no bracket (width <= 2^1025) and accuracy (>= 2^-1074) that doubles can express; on every instance of the number interface (IEEE doubles with an infinite value at the other end included) a zero end is returned as is when neither end value is NaN; a history of requests served by one process is answered request by request as if each were the only one, up to the first exit. Not theorems: statements about IEEE rounding "
+              "(on doubles the clamp is active when rounding pushes Ridder's point past a bracket end; function values from 1e-300 to 1e300, brackets wider than the largest double, brackets of up to 630 decades with subnormal to 1e300 roots and accuracies down to 1e-14*|root| (up to ~2100 iterations), end values that overflow to +-inf, brackets a few ulps wide, histories of several requests in one process and midpoints that are exact roots are generated; K-C02-3, the overflow of x1+x2 in the midpoint for sign changes beyond DBL_MAX - |far end|, is a known finding): covered by running the extracted "
               "model against the C++ code on every run (result, warning flag, full evaluation trace, bit for bit) and by evaluating every clause on "
               "the implementation's output (S4).")
 LEVEL_NOTE = ("Coq 8.16.1 kernel; standard-library real-number axioms (listed in the evidence); nan_end_exits is axiom-free. Hand-written model tied by "
@@ -24,7 +28,9 @@ LEVEL_NOTE = ("Coq 8.16.1 kernel; standard-library real-number axioms (listed in
 TOL = (1e-12, 1e-300)
 TRUSTED = ["the objective functions are prefix expressions evaluated by harness/common.hpp and ocaml/common.ml with the same libm; S4 re-evaluates them in Python (math module = the same libm)",
            "the maximum-iteration return is observed as the text 'Iterations exceed the maximum' on the library's stdout"]
-ASSUMPTIONS = ["accuracy on doubles is checked (S4) as: min f <= 0 <= max f over {x-acc, x, x+acc (clamped to the bracket)} and the evaluated abscissae within acc of x"]
+ASSUMPTIONS = ["accuracy on doubles is checked (S4) as: min f <= 0 <= max f over {x-acc, x, x+acc (clamped to the bracket)} and the evaluated abscissae within acc of x",
+               "end values that overflow to +-inf in double evaluation are treated as values of that sign (the real function is finite there): a zero at the other end is returned as is, equal signs are rejected, opposite signs are solved",
+               "for brackets narrower than 1e-14*|root| the only accuracy inside the quantifier is the width itself"]
 
 
 # ---------------------------------------------------------------- fexpr evaluation in Python (independent of harness / model)
